@@ -1,5 +1,6 @@
 SPECIFICATION MCSpec
 CONSTANTS
+  AllSchedules = TRUE
   PermuteModules = TRUE
   N = 3
   Kinds = {"val", "ptr"}
